@@ -145,9 +145,10 @@ axes = Contract(
     hints={"l_axes": Ty.List(Int), "r_axes": Ty.List(Int)},
     ensures=[
         "len(result[0]) == len(result[1])",
-        # paired positions carry the same index, left positions strictly increasing
+        # paired positions carry the same index
         "forall(0, len(result[0]), lambda k: 0 <= result[0][k] and result[0][k] < len(L) and 0 <= result[1][k] and result[1][k] < len(R) and L[result[0][k]] == R[result[1][k]])",
-        "forall(0, len(result[0]), lambda k: forall(0, len(result[0]), lambda m: implies(k < m, result[0][k] < result[0][m])))",
+        # (no left position is paired twice; the order of the pairs is immaterial to tensordot)
+        "forall(0, len(result[0]), lambda k: forall(0, len(result[0]), lambda m: implies(k < m, result[0][k] != result[0][m])))",
         # every shared index of the left operand is paired
         "forall(0, len(L), lambda p: implies(exists(0, len(R), lambda j: R[j] == L[p]), exists(0, len(result[0]), lambda k: result[0][k] == p)))",
     ],
